@@ -115,7 +115,7 @@ func loadRepo() (*loaded, error) {
 					file = file[:i]
 				}
 				base := filepath.Base(file)
-				if _, isOv := ov[file]; isOv && base != "zz_verif_vocab.go" && base != "zz_verif_models.go" {
+				if _, isOv := ov[file]; isOv && base != "zz_verif_vocab.go" && base != "zz_verif_models.go" && base != "zz_verif_shared.go" {
 					if _, seen := bad[file]; !seen {
 						bad[file] = e.Msg
 					}
